@@ -32,6 +32,7 @@ type Obligation struct {
 	Cover   bool
 	Results map[string]Value
 	Clause  *SExpr // violated clause (for replay evaluation)
+	Hints   []*Term
 }
 
 type unsupportedErr struct{ msg string }
@@ -99,6 +100,8 @@ type Exec struct {
 	mayWriteDepth int
 	iterSources  map[string]iterSource
 	specFuel     int
+	usesLenMemo  map[string]bool
+	recMemo      map[string]bool
 }
 
 func (x *Exec) fresh(base string) string {
@@ -209,6 +212,7 @@ func (x *Exec) oblige(fr *Frame, st *State, kind, label string, goal *Term, n as
 		Trace:  append([]string(nil), st.trace...),
 		Props:  c.Props,
 		Inputs: c.Params,
+		Hints:  x.stateHints(st),
 	}
 	x.Obls = append(x.Obls, ob)
 }
